@@ -264,8 +264,7 @@ MorphRest(src, tgt, sel(_), i, adj, acc) ==
 
 Morph(t, target, sel(_)) ==
   IF Len(t.ents) # Len(target.ents) THEN Fail("SafeZipException", t)
-  ELSE IF t.ents = <<>> THEN Fail("IndexError", t)
   ELSE LET es == MorphRest(t.ents, target.ents, sel, 1, 0, <<>>)
-           diff == es[Len(es)].e - t.ents[Len(t.ents)].e
+           diff == IF es = <<>> THEN 0 ELSE es[Len(es)].e - t.ents[Len(t.ents)].e
        IN RetCons(ConsI(t.name, es, t.lo, t.hi + diff), t)
 =============================================================================
